@@ -508,6 +508,10 @@ def _clean_up_state(state: State) -> None:
         flow_states = state.flow_id_states[state.flow_states[flow_state_uid].flow_id]
         flow_states.remove(flow_state)
         del state.flow_states[flow_state_uid]
+        # An activated flow is a child of every flow that activated it, not only of its parent
+        for other_flow_state in state.flow_states.values():
+            while flow_state_uid in other_flow_state.child_flow_uids:
+                other_flow_state.child_flow_uids.remove(flow_state_uid)
 
     # Remove all actions that are no longer referenced
     # TODO: Refactor to use no more ids to simplify memory management
